@@ -26,17 +26,17 @@ ASSUMPTIONS = [
     "bounded liveness is evaluated graceful_timeout + 5 simulated seconds after the last HUP was handled; stub workers obey TERM "
     "after finishing the request they are serving",
     "timeout is 30 s so the inactivity scan never interferes",
-    "gevent/eventlet run() loops are not executed: async columns NOT covered",
+    "the real GeventWorker.run() executes on a shim of the gevent primitives (simkit/gevent_shim.py); the eventlet run() loop is NOT executed",
 ]
 COMPONENTS = {"real": ["Arbiter.handle_hup/reload/manage_workers/spawn_worker/kill_worker/reap_workers", "BaseApplication.reload/do_load_config",
                        "Pidfile (reload path)", "family full: SyncWorker / ThreadWorker run loops and handlers"],
               "stub": ["kernel", "family stub: worker run loop", "clients"],
-              "not_covered": ["ggevent", "geventlet"]}
+              "shim": ["gevent primitives (simkit.gevent_shim)"], "not_covered": ["geventlet"]}
 
 
 def make_case(index, rng, tier):
     fam = "full" if index % 4 == 3 else "stub"
-    kind = rng.choice(["sync", "gthread"]) if fam == "full" else "stub"
+    kind = rng.choice(["sync", "gthread", "gevent"]) if fam == "full" else "stub"
     hups = []
     t = 0.0
     for i in range(rng.randrange(1, 4)):
